@@ -26,7 +26,7 @@ TREE_CFGS = {
                  "SyntaxGenD3a.cfg", "SyntaxGenD3b.cfg", "SyntaxGenD3c.cfg", "SyntaxGenD3d.cfg"],
 }
 STR_CFG = {"quick": "SyntaxGenStr.cfg", "thorough": "SyntaxGenStr8.cfg"}
-MODULES = {"quick": dict(gen=300, comments=5), "thorough": dict(gen=3000, comments=60)}
+MODULES = {"quick": dict(gen=300, comments=5, template_comments=120), "thorough": dict(gen=3000, comments=60, template_comments=1500)}
 
 
 def open_findings():
@@ -389,6 +389,18 @@ def run(tier):
     src = os.path.join(d, "src")
     _, f = module_phase("corpus", ["--corpus", "/repo/tests,/repo/std", "--comments", m["comments"], "--seed", SEED,
                                    "--srcdir", os.path.join(src, "comments")], tolerate, stats, d)
+    fails += f
+    # the construct-dense templates of spec/CommentsCorpus.txt (C09's corpus), with many comment placements each
+    tdir = os.path.join(src, "templates")
+    os.makedirs(tdir, exist_ok=True)
+    n = 0
+    for line in open(os.path.join(VERIF, "spec", "CommentsCorpus.txt")):
+        if line.strip() and not line.startswith("#"):
+            n += 1
+            with open(os.path.join(tdir, f"T{n:02d}.sam"), "w") as tf:
+                tf.write(line)
+    _, f = module_phase("templates", ["--corpus", tdir, "--comments", m["template_comments"], "--seed", SEED,
+                                      "--srcdir", os.path.join(src, "template-comments")], tolerate, stats, d)
     fails += f
     summary, f = module_phase("generated", ["--gen", m["gen"], "--seed", SEED, "--srcdir", os.path.join(src, "gen")]
                               + (["--avoid-assoc-region"] if tolerate else []), tolerate, stats, d)
